@@ -3,6 +3,7 @@
 set -u
 WT=/tmp/wt_validate
 OUT=/verif/seeded/validation.txt
+rm -rf /tmp/mutkit && cp -r /verif/seeded/mutkit /tmp/mutkit   # the demos import mkbundle from /tmp/mutkit
 : > $OUT
 git -C /repo worktree remove --force $WT 2>/dev/null
 git -C /repo worktree add -q --detach $WT HEAD
